@@ -5,13 +5,12 @@
 
    Parse (src/ir/module/mod.rs:375-460): the payload loop looks at every custom section through
    wasmparser's [as_known]:
-     "name"       -> consumed on the spot; function names are attached to imports / code bodies *seen so
-                     far* ([code_sections[idx - imports.num_funcs]] is an unchecked index: panic when the
-                     body has not been read yet); a reader error makes Module::parse return Err;
+     "name"       -> consumed; function names are collected and attached to the imports / code bodies once every
+                     section has been read (a name for a function that does not exist is dropped), so the position
+                     of the name section does not matter; a reader error makes Module::parse return Err;
                      the section is NOT stored in custom_sections;
-     "producers"  -> if the field-count header can be read: [.into_iter().next().unwrap().expect(..)] and
-                     collecting the values with [.expect(..)] (panic on zero fields / a malformed first field),
-                     then pushed; if the header cannot be read as_known answers Unknown and it is pushed;
+     "producers"  -> pushed like every other custom section, its fields are not looked at (the former
+                     `.next().unwrap().expect(..)` check, D09b-d, is gone);
      anything else-> pushed, in order of appearance.
    Edits (src/ir/types.rs:1903-1966, CustomSections): add = push + return old length; delete = Vec::remove
    when id < len, else nothing; get_section_data_mut = Some(&mut data) when id < len, else None;
@@ -32,7 +31,8 @@ Inductive cinfo :=
 | CNameOk (fnames : list N)                   (* well-formed name section; function indices it names, in order *)
 | CNameBad                                    (* name section whose subsections cannot be read *)
 | CProd (status : N).                         (* producers: 0 = >=1 field and the first one is well-formed,
-                                                 1 = zero fields or malformed first field, 2 = unreadable header *)
+                                                 1 = zero fields or malformed first field, 2 = unreadable header
+                                                 (the parser no longer looks at it) *)
 
 (* the section layout of the input binary, in file order *)
 Inductive item :=
@@ -46,10 +46,6 @@ Arguments ParseErr {A}.
 
 Record pstate := mkP { p_nimp : N; p_ncode : N; p_customs : list csec }.
 
-(* attaching one function name: imports are searched (never panics), locals are indexed *)
-Definition name_ok (st : pstate) (idx : N) : bool :=
-  if idx <? p_nimp st then true else (idx - p_nimp st) <? p_ncode st.
-
 Definition parse_item (st : pstate) (it : item) : outcome pstate :=
   match it with
   | IStd id n =>
@@ -59,14 +55,8 @@ Definition parse_item (st : pstate) (it : item) : outcome pstate :=
   | ICustom name data info =>
       if N.eqb name NAME then
         match info with
-        | CNameOk fnames => if forallb (name_ok st) fnames then Done st else Panic
         | CNameBad => ParseErr
         | _ => Done st
-        end
-      else if N.eqb name PRODUCERS then
-        match info with
-        | CProd 1 => Panic
-        | _ => Done (mkP (p_nimp st) (p_ncode st) (p_customs st ++ [(name, data)]))
         end
       else Done (mkP (p_nimp st) (p_ncode st) (p_customs st ++ [(name, data)]))
   end.
